@@ -98,17 +98,22 @@ def is_desugar(n):
     return bool(e) and any(x.startswith("d:") or x.startswith("x:") for x in e)
 
 
+ALIAS = {}   # actual def-path -> the path the rules expect (functions relocated into/out of a nested module; facts.py)
+
+
 def callee(n):
     """Resolved callee def-path of a Call / MethodCall node, ('local', id) for a call through a
     local (closure or fn parameter), or None."""
     k = kind(n)
     if k == "MethodCall":
-        return n.get("path")
+        p = n.get("path")
+        return ALIAS.get(p, p) if ALIAS else p
     if k == "Call":
         f = peel(n["f"])
         if kind(f) == "Path":
             if f.get("res") == "def":
-                return f.get("path")
+                p = f.get("path")
+                return ALIAS.get(p, p) if ALIAS else p
             if f.get("res") == "local":
                 return ("local", f["id"], f["name"])
     return None
